@@ -19,6 +19,7 @@ REQUIRED_THEOREMS = [
     "C02.cached_call_correct_from_partial",
     "C02.shared_entry_same_args_partial",
     "C02.fallback_collision_counterexample",
+    "C02.shared_function_id_stale_reference_counterexample",
 ]
 TRUSTED_EXTRA = [
     "modelled, not verified: md5 (the digest is the parameter H; the theorems assume no collision among the finitely many keys of the "
